@@ -303,3 +303,17 @@ BOUNDED = [('bounded/index', 'index tree == trie of the entries read by the make
             'all item-length lists of length <= 6 over {1,2,3,5} x cols 1-4', bounded_split),
            ('bounded/accent-groups', 'an accented initial is grouped with its base letter (unique headings)', '1 document', bounded_accents)]
 CLASSES = {'accent-groups': lambda w: isinstance(w, dict) and bool(w.get('accents'))}
+
+
+def bounded_symbol_headings(budget, rng):
+    """every heading occurs once: symbol-initial entries form ONE group wherever their initials fall in the collation order"""
+    src = build_doc([':colon', 'zeta', '"|bar', 'alpha'], rng)
+    d, pi = run_doc(src, 2)
+    titles = [g.title for g in pi.groups]
+    if len(titles) != len(set(titles)):
+        return False, 1, 'headings %r: the same heading (and element id) occurs twice' % titles, dict(text=src, kind='split-symbols')
+    return True, 1, ''
+
+
+BOUNDED.append(('bounded/symbol-headings', 'symbol-initial entries are gathered under one heading', '1 document (symbols that collate before and after the letters)', bounded_symbol_headings))
+CLASSES['split-symbols'] = lambda w: isinstance(w, dict) and w.get('kind') == 'split-symbols'
